@@ -1,5 +1,6 @@
 import PqV.Drv.Kern
 import PqV.Drv.Filter
+import PqV.Drv.Footer
 /-
   `pqv` — line-protocol driver over the executable definitions of PqV (Spec, Impl, Gen).
   One request per line on stdin, one reply per line on stdout.  Pure per line.
@@ -15,6 +16,7 @@ def handleLine (line : String) : String :=
     | "kern" => handleKern op a
     | "spec" => handleSpec op a
     | "filter" => handleFilter op a
+    | "footer" => handleFooter op a
     | _ => s!"err unknown-stream {stream}"
   | _ => "err bad-request"
 
